@@ -592,16 +592,31 @@ func (c *FnCtx) pureBody(stmts []ast.Stmt, st *State, fd *ast.FuncDecl, sig *typ
 		return c.convertTo(v, c.typeOf(s.Results[0]), sig.Results().At(0).Type(), st)
 	case *ast.IfStmt:
 		if s.Init != nil {
-			c.fail(s.Pos(), "pure inline: if with init")
+			as, ok := s.Init.(*ast.AssignStmt)
+			if !ok || as.Tok != token.DEFINE || len(as.Rhs) != 1 {
+				c.fail(s.Pos(), "pure inline: if with unsupported init")
+			}
+			vals := c.evalMulti(as.Rhs[0], st)
+			if len(vals) != len(as.Lhs) {
+				c.fail(s.Pos(), "pure inline: init arity")
+			}
+			for i, l := range as.Lhs {
+				if id, ok := l.(*ast.Ident); ok && id.Name != "_" {
+					if obj := c.info().Defs[id]; obj != nil {
+						c.specEnv[len(c.specEnv)-1][obj] = vals[i]
+					}
+				}
+			}
 		}
 		cond := c.eval(s.Cond, st)
-		a := c.pureBody(s.Body.List, st, fd, sig)
+		// a branch that falls through continues with the statements after the if
+		a := c.pureBody(append(append([]ast.Stmt{}, s.Body.List...), stmts[1:]...), st, fd, sig)
 		var rest []ast.Stmt
 		if s.Else != nil {
 			if blk, ok := s.Else.(*ast.BlockStmt); ok {
-				rest = blk.List
+				rest = append(append([]ast.Stmt{}, blk.List...), stmts[1:]...)
 			} else {
-				rest = []ast.Stmt{s.Else}
+				rest = append([]ast.Stmt{s.Else}, stmts[1:]...)
 			}
 		} else {
 			rest = stmts[1:]
